@@ -24,8 +24,11 @@ views (drv_literal_forms), search operators over the matrix of multi-choice
 kinds with mutation aimed at every decision point (drv_operator_matrix), and
 the history of the DNA object before a successful use_spec: refused bindings
 that were repaired, edits of bound DNAs, other specs first, children that are
-already bound (drv_binding_history).  Time budgets are CPU time, so a loaded
-machine does not change which cases are run.
+already bound (drv_binding_history), and the matrix of public entry points
+that hand out DNAs x the spellings of their optional arguments (left out, by
+keyword, by position) x root kinds and parts of a spec (drv_entry_points).
+Time budgets are CPU time, so a loaded machine does not change which cases
+are run.
 """
 import copy
 import itertools
@@ -36,11 +39,13 @@ import time
 import pyglove as pg
 from pyvc.bounded import Recorder, rng
 
+from bounded import c11_enumeration as _c11
+
 from bounded.c11_enumeration import (
     C, CH, CU, FL, FLAGS, LOCS, ONE, SP, S2, S22, S3, SF, SM, SN, accepts,
     build, corruptions, count_members, depth_of, dsrc, flat, gen_dps,
-    handpicked_roots, has_kind, is_finite, leaf, members, mk, shape, src, tkey,
-    why_not_dp, wit)
+    handpicked_roots, has_kind, is_finite, leaf, members, mk, node_pairs,
+    occurrences, plan_of, plan_src, shape, src, tkey, why_not_dp, wit)
 
 PROP = 'C12'
 
@@ -409,10 +414,13 @@ def check_json(rec, m, spec, t, d, strings=True):
                       'import json\n' + base + f'x = {text}.use_spec(spec)\n')
 
 
-def check_alignment(rec, m, spec, t, x, source, make_x):
+def check_alignment(rec, m, spec, t, x, source, make_x, wm=None):
   """Every node of x (tree t) is bound to the decision point of its position
-  and its dict views are those of a DNA rebuilt from its numbers."""
-  key = (src(m), t)
+  and its dict views are those of a DNA rebuilt from its numbers.
+
+  wm: model the witness is built from when `spec` is a part of a larger
+  specification (make_x then starts by re-assigning `spec` to that part)."""
+  key = (src(m), t) if wm is None else (src(wm), make_x.split('\n')[0], t)
   recs_c = records(m, spec, t, x)
   rs, containers = recs_c
   bad = None
@@ -441,7 +449,7 @@ def check_alignment(rec, m, spec, t, x, source, make_x):
     ok, msg = False, f'to_dict raised {type(e).__name__}: {e}'[:300]
   rec.case(f'aligned/{source}', key, bad is None and ok,
            '; '.join(x_ for x_ in (bad, msg) if x_), wit(
-               m, make_x + f'y = {rebuilt}\n'
+               wm or m, make_x + f'y = {rebuilt}\n'
                'def specs(n): return [n.spec] + [s for c in n.children for s in specs(c)]\n'
                'assert all(a is b for a, b in zip(specs(x), specs(y))), '
                '[(a and a.id.path, b and b.id.path) for a, b in '
@@ -788,21 +796,22 @@ def alignment_specs():
   ]
 
 
-def audit_dna(rec, m, spec, x, source, make_x):
+def audit_dna(rec, m, spec, x, source, make_x, wm=None):
   """x: pg.DNA handed out by `source`; valid, bound and aligned?"""
   t = shape(x)
   if not accepts(m, t):
     rec.case(f'aligned/{source}/output-is-valid', (src(m), t), False,
              f'{source} returned {t!r}, not a valid DNA of the spec',
-             wit(m, make_x + 'spec.validate(D(x.to_json(type_info=False)))\n'
+             wit(wm or m, make_x +
+                 'spec.validate(D(x.to_json(type_info=False)))\n'
                  f'assert x.to_numbers() != {flat(t)!r}'))
     return False
   if x.spec is None:
     rec.case(f'aligned/{source}/bound', (src(m), t), False,
              f'{source} returned an unbound DNA', wit(
-                 m, make_x + 'assert x.spec is not None'))
+                 wm or m, make_x + 'assert x.spec is not None'))
     return False
-  return check_alignment(rec, m, spec, t, x, source, make_x)
+  return check_alignment(rec, m, spec, t, x, source, make_x, wm)
 
 
 def _members_of_float_spec(m, r, n):
@@ -1458,9 +1467,400 @@ def drv_binding_history(tier, seed):
                 f'x = D({t[0]!r}, list(donor.children))\n', (src(m), t))
   return rec.result()
 
+# ---------------------------------------------------------------------------
+# Entry points: every public way of being handed a DNA x every form of its
+# optional arguments
+# ---------------------------------------------------------------------------
+# The statement speaks of *every* DNA handed out by the library.  The drivers
+# above obtain their DNAs through one call form per function; here the input
+# class is the call itself: each public function / method / generator that
+# returns a DNA for a specification, called with its optional arguments left
+# out, given by keyword and given by position, on specifications of every root
+# kind and on the parts of a specification.  A caller that asks for an unbound
+# DNA (attach_spec=False) and binds it afterwards must end up with the same
+# aligned DNA.  Every call is executed from its source text, so the witness is
+# exactly what ran.
+
+
+def entry_specs():
+  return [
+      ('space/multi-element',
+       SP(leaf(3, name='x', lits=('a', 'b', 'c')), leaf(3, 2, True, False),
+          leaf(2))),
+      ('space/single-element-inlined', SP(CH(2, [S2, C, SM], False, True))),
+      ('space/conditional',
+       SP(ONE([C, S2, SP(CH(2, [C, C, C], True, True, name='z'))], name='r'),
+          leaf(2))),
+      ('space/float+custom',
+       SP(ONE([C, SP(FL(0.0, 1.0))], lits=('none', 'dropout')),
+          leaf(3, 2, True, False), FL(-1.0, 1.0), CU('cu'))),
+      ('root/choices', ONE([S2, C, SM], name='r')),
+      ('root/multi-choice', CH(2, [S2, C, S3], True, False)),
+      ('root/float', FL(0.5, 1.5, 'ff')),
+      ('root/custom', CU('c')),
+      ('root/constant-space', C),
+  ]
+
+
+def head_calls():
+  """(source, [code]) that hand out the first DNA of the iteration order."""
+  sweep = 'a = pg.geno.Sweeping(); a.setup(spec)\n'
+  return [
+      ('first_dna[default-args]', ['x = spec.first_dna()\n']),
+      ('first_dna[attach_spec=True]', ['x = spec.first_dna(attach_spec=True)\n',
+                                       'x = spec.first_dna(True)\n']),
+      ('first_dna[attach_spec=False]+use_spec',
+       ['x = spec.first_dna(attach_spec=False).use_spec(spec)\n',
+        'x = spec.first_dna(False).use_spec(spec)\n']),
+      ('next_dna[head,default-args]', ['x = spec.next_dna()\n',
+                                       'x = spec.next_dna(None)\n',
+                                       'x = spec.next_dna(dna=None)\n']),
+      ('next_dna[head,attach_spec=True]',
+       ['x = spec.next_dna(None, True)\n',
+        'x = spec.next_dna(attach_spec=True)\n']),
+      ('next_dna[head,attach_spec=False]+use_spec',
+       ['x = spec.next_dna(None, False).use_spec(spec)\n',
+        'x = spec.next_dna(attach_spec=False).use_spec(spec)\n']),
+      ('iter_dna[default-args]/first', ['x = next(spec.iter_dna())\n',
+                                        'x = next(spec.iter_dna(None))\n',
+                                        'for x in spec.iter_dna(): break\n']),
+      ('iter_dna[attach_spec=True]/first',
+       ['x = next(spec.iter_dna(attach_spec=True))\n',
+        'x = next(spec.iter_dna(None, True))\n']),
+      ('iter_dna[attach_spec=False]+use_spec/first',
+       ['x = next(spec.iter_dna(attach_spec=False)).use_spec(spec)\n']),
+      ('Sweeping.propose/first', [sweep + 'x = a.propose()\n']),
+      ('iter(Sweeping)/first', [sweep + 'x = next(iter(a))\n']),
+      ('Deduping(Sweeping).propose/first',
+       ['a = pg.geno.Deduping(pg.geno.Sweeping()); a.setup(spec)\n'
+        'x = a.propose()\n']),
+      # DNAs made from the head by the library
+      ('clone[of-handed-out]', ['x = spec.first_dna().clone()\n',
+                                'x = spec.next_dna().clone(deep=True)\n',
+                                'import copy\n'
+                                'x = copy.deepcopy(next(spec.iter_dna()))\n']),
+  ]
+
+
+def later_calls(t, twin_src):
+  """(source, [code]) that continue the iteration after member t."""
+  d_un, d_b = dsrc(t), bind_src(t)
+  starts = [('unbound', d_un), ('bound', d_b),
+            ('bound-to-equal-spec-object', f'{d_un}.use_spec({twin_src})')]
+  out = []
+  for form, args in [('default-args', ['d', 'dna=d']),
+                     ('attach_spec=True', ['d, True', 'd, attach_spec=True',
+                                           'dna=d, attach_spec=True'])]:
+    out.append((f'next_dna[from-dna,{form}]', [
+        f'd = {s_}\nx = spec.next_dna({a})\n'
+        for _, s_ in starts for a in args]))
+    out.append((f'iter_dna[from-dna,{form}]/first', [
+        f'd = {s_}\nx = next(spec.iter_dna({a}))\n'
+        for _, s_ in starts for a in args]))
+  out += [
+      ('next_dna[from-dna,attach_spec=False]+use_spec', [
+          f'd = {s_}\nx = spec.next_dna(d, {a}).use_spec(spec)\n'
+          for _, s_ in starts for a in ('False', 'attach_spec=False')]),
+      ('DNA.next_dna', [f'x = {d_b}.next_dna()\n',
+                        f'x = D({t[0]!r}, [' + ', '.join(
+                            dsrc(c) for c in t[1]) + '], spec=spec).next_dna()\n']),
+      ('DNA.iter_dna/first', [f'x = next({d_b}.iter_dna())\n']),
+      ('Sweeping[recovered].propose', [
+          'a = pg.geno.Sweeping(); a.setup(spec); '
+          f'a.recover([({h}, None)])\nx = a.propose()\n'
+          for h in (d_b, d_un)]),
+  ]
+  return out
+
+
+def second_calls():
+  """(source, [code]) whose result is the second DNA of the iteration."""
+  return [
+      ('iter_dna[default-args]/later',
+       ['import itertools\nx = list(itertools.islice(spec.iter_dna(), 2))[1]\n',
+        'i = spec.iter_dna(); next(i); x = next(i)\n']),
+      ('iter_dna[attach_spec=True]/later',
+       ['i = spec.iter_dna(None, True); next(i); x = next(i)\n']),
+      ('next_dna[from-handed-out-dna]',
+       ['x = spec.next_dna(spec.first_dna())\n',
+        'x = spec.next_dna(spec.next_dna())\n',
+        'x = spec.next_dna(next(spec.iter_dna()), True)\n']),
+      ('DNA.next_dna[of-handed-out]',
+       ['x = spec.first_dna().next_dna()\n',
+        'x = spec.next_dna().next_dna()\n',
+        'x = spec.first_dna().clone().next_dna()\n']),
+      ('DNA.iter_dna[of-handed-out]/first',
+       ['x = next(spec.first_dna().iter_dna())\n']),
+      ('Sweeping.propose/later',
+       ['a = pg.geno.Sweeping(); a.setup(spec); a.propose()\nx = a.propose()\n']),
+      ('iter(Sweeping)/later',
+       ['a = pg.geno.Sweeping(); a.setup(spec)\ni = iter(a); next(i); '
+        'x = next(i)\n']),
+      ('Deduping(Sweeping).propose/later',
+       ['a = pg.geno.Deduping(pg.geno.Sweeping()); a.setup(spec); a.propose()\n'
+        'x = a.propose()\n']),
+  ]
+
+
+def random_calls(s, prev_srcs, fns):
+  """(source, [code]) that hand out a random DNA (seed s)."""
+  rnd = f'random.Random({s})'
+  out = []
+  for fn, pre in fns:
+    bare = pre.rstrip(', ') + ')'    # the call with nothing but the spec
+    kw0 = pre
+    out += [
+        (f'{fn}[default-args]', [f'random.seed({s})\nx = {bare}\n']),
+        (f'{fn}[random-module]', [
+            f'random.seed({s})\nx = {pre}random)\n',
+            f'random.seed({s})\nx = {kw0}random_generator=random)\n',
+            f'random.seed({s})\nx = {pre}None)\n']),
+        (f'{fn}[Random-object]', [f'x = {pre}{rnd})\n',
+                                  f'x = {kw0}random_generator={rnd})\n']),
+        (f'{fn}[attach_spec=True]', [
+            f'x = {pre}{rnd}, True)\n',
+            f'x = {pre}{rnd}, attach_spec=True)\n',
+            f'random.seed({s})\nx = {kw0}attach_spec=True)\n']),
+        (f'{fn}[attach_spec=False]+use_spec', [
+            f'x = {pre}{rnd}, False).use_spec(spec)\n',
+            f'x = {pre}{rnd}, attach_spec=False).use_spec(spec)\n']),
+        (f'{fn}[previous_dna]', [
+            f'p = {ps}\nx = {pre}{rnd}, {a})\n'
+            for ps in prev_srcs
+            for a in ('True, p', 'previous_dna=p',
+                      'attach_spec=True, previous_dna=p')]
+         + [f'random.seed({s})\np = {prev_srcs[0]}\n'
+            f'x = {kw0}previous_dna=p)\n']),
+        (f'{fn}[previous_dna,attach_spec=False]+use_spec', [
+            f'p = {prev_srcs[0]}\n'
+            f'x = {pre}{rnd}, False, p).use_spec(spec)\n']),
+    ]
+  gen = f'a = pg.geno.Random(seed={s}); a.setup(spec)\n'
+  out += [
+      ('geno.Random[seed].propose/first', [gen + 'x = a.propose()\n']),
+      ('geno.Random[seed].propose/later',
+       [gen + 'a.propose(); x = a.propose()\n']),
+      ('iter(geno.Random)', [gen + 'x = next(iter(a))\n',
+                             gen + 'i = iter(a); next(i); x = next(i)\n']),
+      ('geno.Random[no-seed].propose',
+       [f'random.seed({s})\na = pg.geno.Random(); a.setup(spec)\n'
+        'x = a.propose()\n']),
+      ('Deduping(geno.Random).propose',
+       [f'a = pg.geno.Deduping(pg.geno.Random(seed={s}), max_duplicates=5); '
+        'a.setup(spec)\nx = a.propose()\n']),
+  ]
+  return out
+
+
+# fn of DNA.from_fn: the planned answers, looked up by decision point object
+_FN_SRC = ('q = {}\n'
+           'for p, a in ans:\n'
+           "  q.setdefault(id(eval('spec.' + p) if p else spec), []).append(a)\n"
+           'fn = lambda dp: q[id(dp)].pop(0)\n')
+
+
+def _plan_src(plan):
+  return plan_src(plan).replace(_c11.FN_SRC, _FN_SRC)
+
+
+def parse_calls(m, t):
+  """(source, [code]) that build member t for the spec from an exported view
+  or from per-decision answers."""
+  d_b = bind_src(t)
+  out = [
+      ('DNA(nested-numbers, spec=)',
+       [f'x = D({d_b}.to_numbers(flatten=False), spec=spec)\n',
+        f'x = D({d_b}.to_numbers(flatten=False), None, spec)\n']),
+      ('DNA.parse[nested-numbers]',
+       [f'x = D.parse({d_b}.to_numbers(flatten=False), spec)\n',
+        f'x = D.parse({d_b}.to_numbers(flatten=False), spec=spec)\n']),
+      ('from_numbers', [f'x = D.from_numbers({flat(t)!r}, spec)\n',
+                        f'x = D.from_numbers({d_b}.to_numbers(), spec)\n']),
+      ('from_dict[default-args]',
+       [f'x = D.from_dict({d_b}.to_dict(), spec)\n',
+        f'x = D.from_dict({d_b}.to_dict(), dna_spec=spec)\n']),
+      ('from_parameters[default-args]',
+       [f'x = D.from_parameters({d_b}.parameters(), spec)\n']),
+      ('from_parameters[use_literal_values=False]',
+       [f'x = D.from_parameters({d_b}.parameters(use_literal_values=False), '
+        'spec, use_literal_values=False)\n',
+        f'x = D.from_parameters({d_b}.parameters(False), spec, False)\n']),
+      ('from_json[default-args]+use_spec',
+       [f'x = pg.from_json({d_b}.to_json()).use_spec(spec)\n',
+        f'x = D.from_json({d_b}.to_json()).use_spec(spec)\n',
+        f'x = pg.from_json_str({d_b}.to_json_str()).use_spec(spec)\n']),
+  ]
+  if m != C:
+    plan = plan_of(occurrences(m, t))
+    out.append(('DNA.from_fn[index-answers]',
+                [_plan_src(plan) + 'x = D.from_fn(spec, fn)\n',
+                 _plan_src(plan) + 'x = D.from_fn(dna_spec=spec, '
+                 'generator_fn=fn)\n']))
+    # every top-level decision point answered with a ready-made sub-tree
+    tops = occurrences(m, t)
+    for o in tops:
+      o.answer = ('dna', o.node)
+    out.append(('DNA.from_fn[dna-answers]',
+                [_plan_src(plan_of(tops)) + 'x = D.from_fn(spec, fn)\n']))
+    # ... with DNAs that the decision points handed out themselves
+    out.append(('DNA.from_fn[handed-out-dna-answers]', [
+        'x = D.from_fn(spec, lambda dp: dp.first_dna())\n',
+        f'rr = random.Random({len(flat(t))})\n'
+        'x = D.from_fn(spec, lambda dp: dp.random_dna(rr))\n',
+        'x = D.from_fn(spec, lambda dp: dp.next_dna(attach_spec=False))\n']))
+  return out
+
+
+def evolution_calls(s):
+  algo = ('a = pg.evolution.regularized_evolution('
+          f'pg.evolution.mutators.Uniform(seed={s}), population_size=3, '
+          f'tournament_size=2, seed={s}); a.setup(spec)\n')
+  return [
+      ('regularized_evolution.propose/initial-population',
+       [algo + 'x = a.propose()\n',
+        algo + 'a.propose(); x = a.propose()\n']),
+      ('regularized_evolution.propose/offspring',
+       [algo + 'for i in range(3): a.feedback(a.propose(), float(i))\n'
+        'x = a.propose()\n',
+        algo + 'for i in range(5):\n  x = a.propose(); a.feedback(x, float(i))\n'
+        'x = a.propose()\n']),
+  ]
+
+
+def run_entry(rec, m, spec, source, code, wm=None, pre='', globs=None):
+  """Executes `code` (which assigns x) and audits x.  Returns x or None."""
+  env = dict(_c11._ENV)  # pylint: disable=protected-access
+  env.update({'pg': pg, 'D': pg.DNA, 'g': pg.geno, 'spec': spec,
+              'random': _random})
+  if globs:
+    env.update(globs)
+  full = 'import random\n' + pre + code
+  state = _random.getstate()
+  try:
+    exec(code, env)  # pylint: disable=exec-used
+    x = env.get('x')
+  except BaseException as e:  # pylint: disable=broad-except
+    if isinstance(e, (KeyboardInterrupt, SystemExit)):
+      raise
+    rec.case(f'aligned/{source}/raises', (src(wm or m), pre, code), False,
+             f'{code.strip()!r} raised {type(e).__name__}: {e}'[:400],
+             wit(wm or m, full))
+    return None
+  finally:
+    _random.setstate(state)
+  if not isinstance(x, pg.DNA):
+    rec.case(f'aligned/{source}/returns-dna', (src(wm or m), pre, code), False,
+             f'{code.strip()!r} gave {x!r}, want a DNA',
+             wit(wm or m, full + 'assert isinstance(x, D), x'))
+    return None
+  audit_dna(rec, m, spec, x, source, full, wm)
+  return x
+
+
+def drv_entry_points(tier, seed):
+  rec = Recorder(
+      PROP, 'every public entry point hands out aligned DNAs, with its '
+      'optional arguments left out, by keyword and by position',
+      scope=('9 specs (root: space of several elements / one inlined '
+             'multi-choice / conditional / with float and custom points, bare '
+             'single choice, multi-choice, float, custom point, constant '
+             'space) and every non-constant part of them taken as a spec of '
+             'its own.  Heads of the iteration: first_dna, next_dna, iter_dna '
+             '(no argument / None / attach_spec by keyword and by position), '
+             'Sweeping and Deduping(Sweeping) via propose and iter, clones of '
+             'handed out DNAs; second DNA of the iteration and continuation '
+             'from a seeded member (quick 1, thorough 4 starts; unbound, '
+             'bound, bound to an equal spec object, handed out by the '
+             'library): next_dna, iter_dna, DNA.next_dna, DNA.iter_dna, '
+             'recovered Sweeping; random: spec.random_dna / pg.random_dna '
+             'with the global generator (default, module, None), a Random '
+             'object, attach_spec and previous_dna by keyword and by position, '
+             'geno.Random with and without seed, Deduping(Random) (quick 1, '
+             'thorough 5 seeds); rebuilding a member (quick 1, thorough 5; '
+             'from_fn one more) from nested numbers, numbers, to_dict(), '
+             'parameters(), JSON and DNA.from_fn; regularized_evolution '
+             'proposals (initial population, offspring); attach_spec=False '
+             'followed by use_spec.  Every entry point is called on every '
+             'spec; quick: one spelling of its arguments per spec, rotating, '
+             'so that every spelling is used on some spec; thorough: every '
+             'spelling on every spec.  Parts of a spec: the default-argument '
+             'form of first_dna / next_dna / iter_dna / random_dna / '
+             'pg.random_dna / DNA.next_dna.  Checked: output valid, bound, '
+             'node.spec identity per position, to_dict vs expectation from '
+             'raw numbers'))
+  r = rng(seed, 'c12.entry')
+  quick = tier == 'quick'
+  t0 = time.process_time()
+  budget = 30 if quick else 400
+  n_start = 1 if quick else 4
+  n_seed = 1 if quick else 5
+  n_parse = 1 if quick else 5
+  rot = [0]
+  # pg.geno.random_dna is the same function object as pg.random_dna unless a
+  # change makes them differ; then both are entry points.
+  fns = [('random_dna', 'spec.random_dna('),
+         ('pg.random_dna', 'pg.random_dna(spec, ')]
+  if pg.geno.random_dna is not pg.random_dna:
+    fns.append(('pg.geno.random_dna', 'pg.geno.random_dna(spec, '))
+
+  def run_all(m, spec, calls, wm=None, pre=''):
+    rot[0] += 1
+    for j, (source, codes) in enumerate(calls):
+      if quick:
+        codes = [codes[(rot[0] + j) % len(codes)]]
+      for code in codes:
+        run_entry(rec, m, spec, source + ('@part-of-spec' if wm else ''), code,
+                  wm, pre)
+
+  for label, m in entry_specs():
+    if time.process_time() - t0 > budget:
+      break
+    spec = build(m)
+    mem = members(m)
+    run_all(m, spec, head_calls())
+    if is_finite(m) and len(mem) >= 2:
+      run_all(m, spec, second_calls())
+      if len(mem) >= 3:
+        for i in sorted(r.sample(range(1, len(mem) - 1),
+                                 min(n_start, len(mem) - 2))):
+          run_all(m, spec, later_calls(mem[i], src(m)))
+    # random generation
+    for _ in range(n_seed):
+      s = r.randrange(10**6)
+      prevs = [dsrc(r.choice(mem)), bind_src(r.choice(mem)),
+               f'spec.random_dna(random.Random({s + 1}))']
+      run_all(m, spec, random_calls(s, prevs, fns))
+      if m != C:
+        run_all(m, spec, evolution_calls(s))
+    # rebuilding members
+    sample = sample_members(m, n_parse + 1, r)
+    for k, t in enumerate(sample):
+      calls = parse_calls(m, t)
+      run_all(m, spec, calls if k < n_parse else
+              [c for c in calls if c[0].startswith('DNA.from_fn')])
+    # ---- the parts of the specification, each taken as a spec ------------
+    for sub_m, sub, attr in node_pairs(m, spec):
+      if not attr or sub_m == C:
+        continue
+      if time.process_time() - t0 > budget:
+        break
+      s = r.randrange(10**6)
+      keep = ('first_dna[default-args]', 'next_dna[head,default-args]',
+              'iter_dna[default-args]/first', 'random_dna[default-args]',
+              'random_dna[Random-object]', 'pg.random_dna[default-args]')
+      calls = [c for c in head_calls() + random_calls(s, ['None'], fns)
+               if c[0] in keep]
+      if is_finite(sub_m) and count_members(sub_m) >= 2:
+        calls += [c for c in second_calls()
+                  if c[0] in ('DNA.next_dna[of-handed-out]',
+                              'iter_dna[default-args]/later')]
+      run_all(sub_m, sub, calls, wm=m, pre=f'spec = spec{attr}\n')
+  return rec.result()
+
 
 DRIVERS = [drv_numbers_and_json, drv_dict_views, drv_alignment,
-           drv_literal_forms, drv_operator_matrix, drv_binding_history]
+           drv_literal_forms, drv_operator_matrix, drv_binding_history,
+           drv_entry_points]
 
 
 def replay(rec):
